@@ -124,6 +124,11 @@ func (a *analysis) doCall(ctx int, fn *ssa.Function, fvs []*Val, x *ssa.Call, s 
 				setRes(a.tupleOrPtr(x.Type(), o))
 			}
 			return s
+		case name == "encoding/binary.PutUvarint":
+			if len(args) > 0 {
+				a.recordWrite(fn, x, "copy-dst", args[0])
+			}
+			return s
 		case externWritesFirstArg[name]:
 			if len(args) > 1 { // receiver is args[0] for bigEndian methods
 				a.recordWrite(fn, x, "copy-dst", args[1])
